@@ -81,7 +81,7 @@ def dumpSpec (frame : Cfg) (s : St) (n : Nat) (q : Bool) : String :=
     + b2n s.ronly * 128 + b2n s.nnest * 256
   let lvl := (s.lvl.zip (List.range 16)).foldl (fun acc p => if p.1 then acc + 2 ^ p.2 else acc) 0
   s!"k{frame.kind} c{frame.cap} o{opt} f{b01 s.fifo} sym:{hx s.sym} d:{hx s.delim} e:{encStr s.enc} id:{hx s.id} cat:{hx s.cat} lvl{lvl} aux:{auxStr s.aux} m{b01 frame.mtx} err:{errCls frame.err} pol:{present [frame.ppf, frame.vpf, frame.rpf, frame.eqf, frame.lss, frame.umf, frame.maf, frame.evl]} n{n} / " ++
-  dumpGetters s.paren (!s.nopad) s.ronly (!s.nnest) (!s.enc.isEmpty) q s.id s.cat s.delim (levelString s.lvl).toList s.aux
+  dumpGetters s.paren (!s.nopad) s.ronly (!s.nnest) (!s.enc.isEmpty) q s.id s.cat s.delim (levelString s.lvl) s.aux
 
 partial def optsModel (isCond : Bool) (c : Cfg) (n : Nat) (ex : Val) (calls : List (Option OptSpec.Call)) (acc : List String) : List String :=
   match calls with
